@@ -806,7 +806,15 @@ def run(ctx):
     rule_nbr_use(ctx, tu)
     rule_axis_table(ctx, py, tu)
     rule_g2g(ctx, py)
+    # shared clause: the converted graph keeps the grid's adjacency only if the graph's edge lookup is orientation-free and the
+    # graph kinetics enumerate every edge (C01.NEIGH)
+    from ..core import borrow
+    from . import c01
+    borrow(ctx, "C15", c01.rule_graph_neighbours, py)
+    # shared clause: the contact surface / distance of a converted grid reach the engine converted from their own units (C04.STATE)
+    from . import c04 as _c04
+    borrow(ctx, "C15", _c04.rule_state, py)
     from .. import lints
-    lints.run(ctx, "C15", ctx.py, ["rdgridspace", "coarsegrain"])
+    lints.run(ctx, "C15", ctx.py, ["rdgridspace", "coarsegrain", "rdgraphspace"])
     ctx.assume("symmetry of the neighbour relation as a theorem and equality of grid / graph trajectories are not "
                "decided; the rate law coincidence of grid and graph is C01.SIB")
